@@ -235,3 +235,120 @@ def side_records(trace_iter, results, combine_probe="L_z", side_probe="o"):
                         elif k == "X":
                             yield {"ev": "out", "p": x["at"], "k": "X", "v": 0}
             yield {"ev": "done", "id": e["id"], "ok": bool(ok)}
+
+
+BINARY_OPS = ("join", "kjoin", "merge", "kmerge", "zip", "ijoin", "kijoin")
+
+
+def _walk(nodes, inside=None, defined=None):
+    """Yield (node, loop node or None, ids defined in the same body) for all nodes, bodies included."""
+    ids = {n["id"] for n in nodes}
+    for n in nodes:
+        yield n, inside, ids
+        if n.get("op") in ("replay", "iterate"):
+            yield from _walk(n.get("body", []), n, None)
+
+
+def _val(x):
+    import zlib
+    if isinstance(x, bool):
+        return int(x)
+    if isinstance(x, int):
+        return small(x)
+    return zlib.crc32(json.dumps(x, sort_keys=True).encode()) % 9973
+
+
+def binary_records(trace_iter, results, jobs_by_id, stats=None):
+    """Events for spec/trace/BinaryConform.tla: for every replica of every two-input block (join, merge, zip) of a
+    job, in program order: messages received from the left / right upstream block and what Start handed on."""
+    stats = stats if stats is not None else {}
+    buf, job, pblock = [], None, {}
+    for e in trace_iter:
+        ev = e.get("ev")
+        if ev == "job":
+            job, buf, pblock = e["id"], [], {}
+        elif ev == "probe":
+            pblock.setdefault(e["id"], e["at"].split(".")[0])
+        elif ev in ("recv", "start_out"):
+            buf.append(e)
+        elif ev in ("done", "hang"):
+            r = results.get(e["id"], {})
+            ok = ev == "done" and all(h.get("ok") for h in r.get("hosts", [])) and not r.get("hang")
+            j = jobs_by_id.get(job)
+            if j is None:
+                continue
+            mode = str(j.get("batch", "default"))
+            to = mode == "default" or mode.startswith("adaptive")
+            for n, loop, ids in _walk(j["prog"]["nodes"]):
+                if n.get("op") not in BINARY_OPS or len(n.get("in", [])) != 2:
+                    continue
+                a, b = (x.split(".")[0] if not x.startswith("$") else x for x in n["in"])
+                cb, lb, rb = pblock.get(n["id"]), pblock.get(n["in"][0]) or pblock.get(a), pblock.get(n["in"][1]) or pblock.get(b)
+                if cb is None or lb is None or rb is None or lb == rb or cb in (lb, rb):
+                    stats["segments_skipped"] = stats.get("segments_skipped", 0) + 1
+                    continue
+                # a side is cached when the block is in a loop body and that input comes from outside the loop
+                cl = loop is not None and n["in"][0] in (loop.get("side") or [])
+                cr = loop is not None and n["in"][1] in (loop.get("side") or [])
+                per = {}
+                bad = False
+                for x in buf:
+                    if x["ev"] == "recv":
+                        at = x["at"].split("<")[0]
+                        if at.split(".")[0] != cb:
+                            continue
+                        fb = x["from"].split(".")[0]
+                        if fb not in (lb, rb):
+                            bad = True
+                            continue
+                        els = []
+                        for el in (x.get("els") or []):
+                            k = el["k"]
+                            if k == "I":
+                                els.append({"k": "I", "v": _val(el.get("v"))})
+                            elif k == "R":
+                                els.append({"k": "FR", "v": 0})
+                            elif k == "X":
+                                els.append({"k": "X", "v": 0})
+                            elif k in ("T", "W"):
+                                bad = True
+                        seg = per.setdefault(at, {"ev": [], "L": set(), "R": set()})
+                        side = "L" if fb == lb else "R"
+                        seg[side].add(x["from"])
+                        seg["ev"].append({"ev": "rl" if side == "L" else "rr", "els": els})
+                    elif x["at"].split(".")[0] == cb:
+                        el = x["el"]
+                        k, v = el["k"], el.get("v")
+                        seg = per.setdefault(x["at"], {"ev": [], "L": set(), "R": set()})
+                        if k == "I":
+                            if isinstance(v, dict) and "Left" in v:
+                                seg["ev"].append({"ev": "o", "k": "L", "v": _val(v["Left"])})
+                            elif isinstance(v, dict) and "Right" in v:
+                                seg["ev"].append({"ev": "o", "k": "R", "v": _val(v["Right"])})
+                            elif v == "LeftEnd":
+                                seg["ev"].append({"ev": "o", "k": "LE", "v": 0})
+                            elif v == "RightEnd":
+                                seg["ev"].append({"ev": "o", "k": "RE", "v": 0})
+                            else:
+                                bad = True
+                        elif k == "R":
+                            seg["ev"].append({"ev": "o", "k": "FR", "v": 0})
+                        elif k == "X":
+                            seg["ev"].append({"ev": "o", "k": "X", "v": 0})
+                        elif k == "B":
+                            seg["ev"].append({"ev": "o", "k": "B", "v": 0})
+                        else:
+                            bad = True
+                if bad:
+                    stats["segments_skipped"] = stats.get("segments_skipped", 0) + 1
+                    continue
+                for p, seg in sorted(per.items()):
+                    if not seg["L"] or not seg["R"]:
+                        stats["segments_skipped"] = stats.get("segments_skipped", 0) + 1
+                        continue
+                    yield {"ev": "begin", "job": job, "p": p + "/" + n["id"], "nl": len(seg["L"]), "nr": len(seg["R"]),
+                           "cl": bool(cl), "cr": bool(cr), "to": bool(to)}
+                    yield from seg["ev"]
+                    yield {"ev": "done", "ok": bool(ok)}
+                    stats["segments"] = stats.get("segments", 0) + 1
+                    stats["cached_segments"] = stats.get("cached_segments", 0) + (1 if (cl or cr) else 0)
